@@ -251,9 +251,10 @@ fn oracle_poison(pc: &PoisonCase, obs: &mut Obs) -> Result<(), Violation> {
     Ok(())
 }
 
-/// Many short closures from a few threads (tens of thousands of hand-offs per workload).
+/// Many short closures from a few threads (tens of thousands of hand-offs per workload, sometimes more than 2^16 on
+/// one lock).
 fn heavy_workload() -> impl Strategy<Value = Workload> {
-    (3usize..9, 1500usize..5000, 1u8..3).prop_map(|(nthreads, ops, locks)| Workload {
+    (3usize..9, prop_oneof![4 => 1500usize..5000, 1 => 9_000usize..12_000], 1u8..3).prop_map(|(nthreads, ops, locks)| Workload {
         locks,
         threads: (0..nthreads)
             .map(|t| {
